@@ -605,3 +605,21 @@ def one_defect(rng, kind=None, maxlen=300):
         return rng.choice([b"", b"B", b"BZ", b"BZh", b"BZh9", b"BZh9\x17", b"BZh9\x17\x72\x45\x38\x50\x90\x00\x00\x00"]), kind, "reject"
     bits = stream(blocks, level, rng)
     return to_bytes(bits), kind, expect
+
+
+def dense20_file(rng, nsyms=60000, level=9):
+    """A conforming stream in which (almost) every symbol of every group has a 20-bit code:
+    alphabet of 141 symbols with lengths 1..13 and 128 x 20 (Kraft-complete), BWT column cycling
+    through 139 byte values so that every MTF position is the last one.  Returns (bytes, plaintext)."""
+    k = 139
+    first = Block(random_plain(rng, rng.range(1, 120)))          # shifts the bit offset of what follows
+    col = [(i % k) for i in range(nsyms)]
+    b = Block()
+    b.raw_col = (col, rng.below(nsyms))
+    b.ntables = 2
+    lens = list(range(1, 14)) + [20] * 128
+    assert sum(1 << (20 - l) for l in lens) == 1 << 20 and len(lens) == k + 2
+    b.lens = [lens, rng.shuffle(lens)[:0] + lens]
+    b.selectors = None
+    bits = stream([first, b], level, rng)
+    return to_bytes(bits), bytes(first.data) + bytes(b.data)
